@@ -10,6 +10,7 @@ import CookModel.Lemmas.FragInput
 import CookModel.Lemmas.RecipeText
 import CookModel.Lemmas.RecipeKeepComp
 import CookModel.Lemmas.RecipeSoft
+import CookModel.Lemmas.RecipeSoftEv
 import CookModel.Lemmas.RecipeInline
 /-
   C05  No recipe content is silently dropped.
@@ -964,5 +965,97 @@ example : ItemsRender (α := Rat) riToyEnv
     ⟨true, "5".toList, " ".toList, "g".toList, 5, by decide, by decide, by decide +kernel, by decide,
       by decide +kernel⟩,
     [], by decide, rfl⟩
+
+-- ===== w8c05soft =====
+/-! ## soft line breaks, lifted to the event stream (wave 8)
+
+    Only two sites of the block parsers push a `Text` event (`parse_step`'s text run and the lines of a `>`
+    text block), both as `BlockParser::text` of a slice of the block's own tokens; the tokens come from the
+    lexer, which spells a newline token LF or CR LF.  `Lemmas/RecipeSoftEv.lean` carries "every `Text` event
+    of the queue has only line breaks as soft fragments" through `parse_block` and the document loop. -/
+
+/-- **A soft fragment of a `Text` event holds only the characters of a line break.**  For every `Text` event
+    of the pull parser's stream, every fragment marked soft has the text `LF` or `CR LF`.  So what
+    `Text::text` replaces by one space when it renders a soft fragment is a line break and nothing else: no
+    letter, digit or other visible character is lost there.  Supersedes
+    `C05_soft_fragment_is_line_break_partial` (which was about `buildText` alone). -/
+theorem C05_soft_fragment_is_line_break {α : Type} [Arith α] (cs : CharSpec) (ext : Ext) (input : List Char)
+    (t : Text) (ht : Ev.text t ∈ (pullEvents (α := α) cs ext input).1.toList) :
+    ∀ f ∈ t.frags, f.soft = true → f.text = ['\n'] ∨ f.text = ['\r', '\n'] :=
+  rkse_pullEvents_text cs ext input t ht
+
+/-- a character inside a soft fragment of a `Text` event of the stream is LF or CR -/
+theorem C05_soft_char_is_line_break {α : Type} [Arith α] (cs : CharSpec) (ext : Ext) (input : List Char)
+    (t : Text) (ht : Ev.text t ∈ (pullEvents (α := α) cs ext input).1.toList) (f : Frag) (hf : f ∈ t.frags)
+    (hsoft : f.soft = true) (ch : Char) (hc : ch ∈ f.text) : ch = '\n' ∨ ch = '\r' := by
+  rcases rkse_pullEvents_text cs ext input t ht f hf hsoft with h | h <;> rw [h] at hc <;> simp at hc
+  · exact Or.inl hc
+  · rcases hc with hc | hc
+    · exact Or.inr hc
+    · exact Or.inl hc
+
+/-- **Every character of step text and text blocks, except the line breaks, appears in the recipe.**  As
+    `C05_recipe_keeps_content_partial`, with the hypothesis `f.soft = false` gone: a character `ch` of the
+    input (`input = a ++ ch :: z`) whose bytes lie inside ANY fragment `f` of the text of a `Text` event and
+    that is neither LF nor CR occurs in a `Text` item of a step of `c` or in a text block of `c`.  The
+    exception is exact: a soft fragment is rendered as one space, and it holds only LF / CR LF
+    (`C05_soft_fragment_is_line_break`), so LF and CR are the only characters that can be dropped there.
+    Still under `INLINE_QUANTITIES off` (see `C05_recipe_keeps_content_inline` for the other case) and
+    define mode not `components` (then: `C05_components_mode_text_warns`). -/
+theorem C05_recipe_keeps_content {α : Type} [Arith α] (env : Env) (input a z : List Char) (ch : Char)
+    (hin : input = a ++ ch :: z) (hiq : env.ext.has Gen.EXT_INLINE_QUANTITIES = false) (c : Col α)
+    (hout : (parseRecipe (α := α) env input).output = some c) (pre post : List (Ev α)) (t : Text)
+    (hsplit : (pullEvents (α := α) env.cs env.ext input).1.toList = pre ++ Ev.text t :: post)
+    (hm : (collectorAfter env input pre ({} : Col α)).defineMode ≠ .components)
+    (f : Frag) (hf : f ∈ t.frags) (hnl : ch ≠ '\n') (hcr : ch ≠ '\r') (h1 : f.offset ≤ utf8Len a)
+    (h2 : utf8Len a + ch.utf8Size ≤ f.stop) : RecipeHasChar c ch := by
+  cases hsoft : f.soft with
+  | false => exact C05_recipe_keeps_content_partial env input a z ch hin hiq c hout pre post t hsplit hm f hf hsoft h1 h2
+  | true =>
+    exfalso
+    have hmem : Ev.text t ∈ (pullEvents (α := α) env.cs env.ext input).1.toList := by rw [hsplit]; simp
+    have hs := rt_pullEvents_text_slices (α := α) env.cs env.ext input t hmem f hf
+    rcases C05_soft_char_is_line_break env.cs env.ext input t hmem f hf hsoft ch (rt_char_in_frag hin hs h1 h2) with h | h
+    · exact hnl h
+    · exact hcr h
+
+/-- **… INLINE_QUANTITIES on or off.**  As `C05_recipe_keeps_content_inline_partial` with the hypothesis
+    `f.soft = false` gone: a character of the input, neither LF nor CR, whose bytes lie inside any fragment of
+    the text of a `Text` event occurs in a `Text` item of a step of `c`, in a source text of an inline
+    quantity a step of `c` refers to, or in a text block of `c` (`RecipeHasCharQ`). -/
+theorem C05_recipe_keeps_content_inline {α : Type} [Arith α] (env : Env) (input a z : List Char)
+    (ch : Char) (hin : input = a ++ ch :: z) (hd : DigitsNotWs env.cs) (c : Col α)
+    (hout : (parseRecipe (α := α) env input).output = some c) (pre post : List (Ev α)) (t : Text)
+    (hsplit : (pullEvents (α := α) env.cs env.ext input).1.toList = pre ++ Ev.text t :: post)
+    (hm : (collectorAfter env input pre ({} : Col α)).defineMode ≠ .components)
+    (f : Frag) (hf : f ∈ t.frags) (hnl : ch ≠ '\n') (hcr : ch ≠ '\r') (h1 : f.offset ≤ utf8Len a)
+    (h2 : utf8Len a + ch.utf8Size ≤ f.stop) : RecipeHasCharQ env c ch := by
+  cases hsoft : f.soft with
+  | false =>
+    exact C05_recipe_keeps_content_inline_partial env input a z ch hin hd c hout pre post t hsplit hm f hf hsoft h1 h2
+  | true =>
+    exfalso
+    have hmem : Ev.text t ∈ (pullEvents (α := α) env.cs env.ext input).1.toList := by rw [hsplit]; simp
+    have hs := rt_pullEvents_text_slices (α := α) env.cs env.ext input t hmem f hf
+    rcases C05_soft_char_is_line_break env.cs env.ext input t hmem f hf hsoft ch (rt_char_in_frag hin hs h1 h2) with h | h
+    · exact hnl h
+    · exact hcr h
+
+/-! non-vacuity: `Mix⏎well` (CR LF) with the toy environment.  The second event is the `Text` with the
+    fragments `Mix` (bytes 0..3), the soft line break `\r\n` (3..5), `well` (5..9); it renders as `Mix well`;
+    the define mode is `all`; the recipe has the step `Mix well`.  The `w` (`a = "Mix\r\n"`, 5 bytes) lies in
+    the third fragment and is neither LF nor CR. -/
+example : (match (pullEvents (α := Rat) rtToyEnv.cs rtToyEnv.ext "Mix\r\nwell".toList).1.toList[1]? with
+    | some (Ev.text t) => t.frags.map (fun f => (f.text, f.soft, f.offset, f.offset + utf8Len f.text)) ==
+        [("Mix".toList, false, 0, 3), ("\r\n".toList, true, 3, 5), ("well".toList, false, 5, 9)] &&
+        t.text == "Mix well".toList
+    | _ => false) = true := by decide +kernel
+example : (collectorAfter rtToyEnv "Mix\r\nwell".toList
+    ((pullEvents (α := Rat) rtToyEnv.cs rtToyEnv.ext "Mix\r\nwell".toList).1.toList.take 1)
+    ({} : Col Rat)).defineMode = .all := by decide +kernel
+example : ((parseRecipe (α := Rat) rtToyEnv "Mix\r\nwell".toList).output.map (·.sections)) =
+    some [⟨none, [.step ⟨[.text "Mix well".toList], 1⟩]⟩] := by decide +kernel
+example : "Mix\r\nwell".toList = "Mix\r\n".toList ++ 'w' :: "ell".toList ∧ utf8Len "Mix\r\n".toList = 5 ∧
+    'w' ≠ '\n' ∧ 'w' ≠ '\r' := by decide
 
 end Cook
